@@ -113,7 +113,7 @@ func runWorker(o *orchOpts, dir string, shard, shards int, secs float64, race bo
 	cmd.Stderr = &stderr
 	cmd.Stdout = &stderr
 	raceLog := filepath.Join(dir, "race."+tag)
-	cmd.Env = append(os.Environ(), "GOMAXPROCS=2")
+	cmd.Env = append(os.Environ(), "GOMAXPROCS="+workerProcs())
 	if race {
 		cmd.Env = append(cmd.Env, "GORACE=log_path="+raceLog+" halt_on_error=0 history_size=2", "VERIF_RACE_LOG="+raceLog)
 	}
@@ -168,7 +168,7 @@ func replayChild(path string, race bool, timeout time.Duration) (viol []Violatio
 	var out bytes.Buffer
 	cmd.Stdout = &out
 	cmd.Stderr = &out
-	cmd.Env = append(os.Environ(), "GOMAXPROCS=2")
+	cmd.Env = append(os.Environ(), "GOMAXPROCS="+workerProcs())
 	if race {
 		raceLog := path + ".racelog"
 		cmd.Env = append(cmd.Env, "GORACE=log_path="+raceLog+" halt_on_error=0 history_size=2", "VERIF_RACE_LOG="+raceLog)
@@ -669,7 +669,7 @@ func minimizeFinding(dir string, f *Finding) *Finding {
 	ctx, cancel := context.WithTimeout(context.Background(), 120*time.Second)
 	defer cancel()
 	cmd := exec.CommandContext(ctx, selfExe(f.Race), "-test.run", "^TestEntry$", "-test.timeout", "0", "minimize", in, outp)
-	cmd.Env = append(os.Environ(), "GOMAXPROCS=2")
+	cmd.Env = append(os.Environ(), "GOMAXPROCS="+workerProcs())
 	if f.Race {
 		raceLog := filepath.Join(dir, "min.racelog")
 		cmd.Env = append(cmd.Env, "GORACE=log_path="+raceLog+" halt_on_error=0 history_size=2", "VERIF_RACE_LOG="+raceLog)
@@ -793,4 +793,17 @@ func writeEvidence(root string, p *Prop, tier string, seed uint64, seeds []uint6
 	b, _ := json.MarshalIndent(ev, "", " ")
 	os.MkdirAll(filepath.Join(root, "evidence"), 0o755) //nolint:errcheck
 	return os.WriteFile(filepath.Join(root, "evidence", p.ID+".json"), b, 0o644)
+}
+
+// workerProcs is the GOMAXPROCS of worker, replay and minimiser processes. One
+// P: goroutines that the code under test starts on its own (outside the seams
+// the simulator owns) are then run by a single-threaded Go scheduler, whose
+// choices repeat far better from run to run than those of parallel threads.
+// VERIF_WORKER_PROCS overrides it (the determinism self-test sets GOMAXPROCS
+// itself).
+func workerProcs() string {
+	if v := os.Getenv("VERIF_WORKER_PROCS"); v != "" {
+		return v
+	}
+	return "1"
 }
